@@ -188,6 +188,21 @@ func checkCopy(c copyCase) (out harness.Outcome) {
 	if d := diff(dump(orig), dump(refOrig)); d != "" {
 		return fail("after both sides were changed the original differs from its replayed reference (state shared with the copy?): %s", d)
 	}
+	// neither side can find the other side's fresh keys by name (a property table shared between the clones would
+	// answer such lookups although the key lists, and therefore the dumps, are per clone)
+	if seen := run(cp, strings.ReplaceAll(heap.ProbeKeys, "%TAG", "O")); seen != "" {
+		return fail("the copy finds properties that were added to the original only (by name, not listed among its keys): %s", seen)
+	}
+	if seen := run(orig, strings.ReplaceAll(heap.ProbeKeys, "%TAG", "C")); seen != "" {
+		return fail("the original finds properties that were added to the copy only (by name, not listed among its keys): %s", seen)
+	}
+	for i, o := range others {
+		for _, tag := range []string{"C", "O"} {
+			if seen := run(o, strings.ReplaceAll(heap.ProbeKeys, "%TAG", tag)); seen != "" {
+				return fail("family member %d finds properties (tag %s) that were added to another runtime only: %s", i, tag, seen)
+			}
+		}
+	}
 	// 5. and the exported functions still behave the same on each side
 	if eC, eR := run(cp, heap.Exercise), run(replay, heap.Exercise); eC != eR {
 		return fail("after the changes, calling the exported functions on the copy gives %q, on its reference %q", eC, eR)
